@@ -174,6 +174,21 @@ DEFAULT_QUERY_LANGUAGE = 'WQL'
 __all__ = ['WBEMSubscriptionManager']
 
 
+def _same_instance(path1, path2):
+    """
+    Return whether two instance paths address the same instance in a WBEM
+    server, i.e. whether they are equal when ignoring their host (paths
+    returned by the server from e.g. ReferenceNames have a host, the paths of
+    the instances the subscription manager keeps do not).
+    """
+    if path1.host != path2.host:
+        path1 = path1.copy()
+        path1.host = None
+        path2 = path2.copy()
+        path2.host = None
+    return path1 == path2
+
+
 def validate_persistence_type(pt):
     """
     Validate persistence type parameter pt as string possible
@@ -811,7 +826,7 @@ class WBEMSubscriptionManager:
         # We iterate backwards because we change the list
         for i in range(len(inst_list) - 1, -1, -1):
             inst = inst_list[i]
-            if inst.path == dest_path:
+            if _same_instance(inst.path, dest_path):
                 del inst_list[i]
                 # continue loop to find any possible duplicate entries
 
@@ -1085,7 +1100,7 @@ class WBEMSubscriptionManager:
         # We iterate backwards because we change the list
         for i in range(len(inst_list) - 1, -1, -1):
             inst = inst_list[i]
-            if inst.path == filter_path:
+            if _same_instance(inst.path, filter_path):
                 del inst_list[i]
                 # continue loop to find any possible duplicate entries
 
@@ -1299,7 +1314,7 @@ class WBEMSubscriptionManager:
         # We iterate backwards because we change the list
         for i in range(len(inst_list) - 1, -1, -1):
             inst = inst_list[i]
-            if inst.path == sub_path:
+            if _same_instance(inst.path, sub_path):
                 del inst_list[i]
                 # continue loop to find any possible duplicate entries
 
